@@ -86,6 +86,17 @@ class CWrap (α : Type) where
 instance : CWrap Int32 := ⟨(· + ·), (· - ·), (· * ·), Int32.toInt⟩
 instance : CWrap Int64 := ⟨(· + ·), (· - ·), (· * ·), fun x => x.toInt32.toInt⟩
 
+/-- a `float` routine whose C text evaluates some sub-expressions in `double` (the usual arithmetic conversions: `vec[i] > max - 50.`,
+    `1. / (float) n`, `-1.*denom`, `sum != 0.0`): `ω` is the type those sub-expressions are evaluated in; `widen` is the exact conversion
+    `(double) x`, `narrow` the rounding conversion `(float) d`.  Binary32 code runs at `VMix Float32 Float`; over the reals (and the
+    extended reals) both types coincide and both conversions are the identity (`VMix.same`). -/
+class VMix (α : Type) (ω : outParam Type) where
+  widen : α → ω
+  narrow : ω → α
+instance : VMix Float32 Float := ⟨Float32.toFloat, Float.toFloat32⟩
+/-- exact arithmetic: one type, no rounding between `float` and `double` -/
+@[reducible] def VMix.same (α : Type) : VMix α α := ⟨id, id⟩
+
 /-- `int16_t` / `int8_t` / `char` cells are only moved (Copy, Reverse): no arithmetic -/
 instance instCElemUInt8 : CElem UInt8 where
   lt a b := decide (a < b)
